@@ -359,7 +359,7 @@ pub struct ItInf<'db> {
 #[derive(Debug, Clone, Copy, PartialEq, Eq)]
 pub struct Acc(pub u32);
 
-#[derive(Clone, Copy, Debug, PartialEq, Eq, Hash)]
+#[derive(Clone, Copy, Debug, PartialEq, Eq, Hash, salsa::SalsaValue)]
 pub enum ItH<'db> {
     I1(It1<'db>),
     I2(It2<'db>),
@@ -408,6 +408,7 @@ pub fn intern_any<'db>(db: &'db dyn SimDb, t: usize, v: u32) -> ItH<'db> {
 pub struct MkOut<'db> {
     pub v: V,
     pub hs: Vec<Ts<'db>>,
+    pub its: Vec<ItH<'db>>,
 }
 
 // ---------------------------------------------------------------------------------------------
@@ -469,14 +470,14 @@ impl<'db> Host for SalsaHost<'db> {
         self.db.sh().push(Ev::RdCall { node, arg: a, ret: r });
         r
     }
-    fn mk_call(&mut self, node: usize) -> (u32, Vec<Ts<'db>>) {
+    fn mk_call(&mut self, node: usize) -> (u32, Vec<Ts<'db>>, Vec<ItH<'db>>) {
         let k = self.db.sh().key(node);
         let r = match self.db.sh().prog.nodes[node].kind {
             Kind::Mk => {
                 let o = q_mk(self.db, k);
-                (o.v.0, o.hs.clone())
+                (o.v.0, o.hs.clone(), o.its.clone())
             }
-            _ => (call_node(self.db, node), vec![]),
+            _ => (call_node(self.db, node), vec![], vec![]),
         };
         self.db.sh().push(Ev::RdCall { node, arg: 0, ret: r.0 });
         r
@@ -562,6 +563,9 @@ fn exec<'db>(db: &'db dyn SimDb, node: usize, me: u64, r0: u32, ts0: Option<Ts<'
             for t in &out.ts {
                 full = crate::rng::hash64(full, t.as_id().as_bits());
             }
+            for t in &out.it {
+                full = crate::rng::hash64(full, t.id().as_bits());
+            }
         }
         _ => {}
     }
@@ -622,7 +626,7 @@ pub fn q_ref(db: &dyn SimDb, k: Key) -> Vec<u32> {
 #[salsa::tracked]
 pub fn q_mk<'db>(db: &'db dyn SimDb, k: Key) -> MkOut<'db> {
     let o = exec_key(db, k, 0);
-    MkOut { v: V(o.ret), hs: o.ts }
+    MkOut { v: V(o.ret), hs: o.ts, its: o.it }
 }
 
 #[salsa::tracked(returns(copy))]
